@@ -23,6 +23,8 @@ type C15Case struct {
 	Claim int64 `json:"claim,omitempty"`
 	// Status (http targets): HTTP status of the hostile reply when non-zero (with the data, possibly empty, as body)
 	Status int `json:"status,omitempty"`
+	// Listing (http targets): body of the hostile /items and /files listings ("" = one plain name)
+	Listing string `json:"listing,omitempty"`
 }
 
 var c15Child *hostileChild
@@ -48,7 +50,7 @@ func hostileCall(req hostileReq) hostileResp {
 const allocSlack = 1 << 20
 
 func runC15(c C15Case, ev *Evid) (fs []Finding) {
-	resp := hostileCall(hostileReq{Target: c.Target, Data: c.Data, Now: c.Now, Claim: c.Claim, Status: c.Status})
+	resp := hostileCall(hostileReq{Target: c.Target, Data: c.Data, Now: c.Now, Claim: c.Claim, Status: c.Status, Listing: c.Listing})
 	desc := fmt.Sprintf("target=%s origin=%s %d bytes %s", c.Target, c.Origin, len(c.Data), hexHead(c.Data, 48))
 	switch {
 	case resp.Timeout:
@@ -68,10 +70,15 @@ func runC15(c C15Case, ev *Evid) (fs []Finding) {
 		return []Finding{{Property: "C15", Key: "panic", Detail: fmt.Sprintf("%s: panic in %s: %s", desc, resp.Where, resp.Panic)}}
 	}
 	limit := uint64(allocSlack + 64*len(c.Data))
+	if c.Listing != "" {
+		// every listed name is a request of its own whose reply (the data) is decoded once more
+		lines := strings.Count(c.Listing, "\n") + 1
+		limit += uint64(64*len(c.Listing) + lines*(64*len(c.Data)+32768))
+	}
 	if resp.Alloc > limit {
 		return []Finding{{Property: "C15", Key: "allocation", Detail: fmt.Sprintf("%s: %d bytes allocated while handling a %d-byte input (bound %d); last call %s", desc, resp.Alloc, len(c.Data), limit, resp.Where)}}
 	}
-	gate := map[string]int{"header": 16, "series": 12, "points": 8, "point": 12, "value": 8, "timestamp": 4, "duration": 4, "archiveinfo": 12, "file": 16, "http-view": 16, "http-view-raw": 16, "http-sum": 16}[c.Target]
+	gate := map[string]int{"header": 16, "series": 12, "points": 8, "point": 12, "value": 8, "timestamp": 4, "duration": 4, "archiveinfo": 12, "file": 16, "http-view": 16, "http-view-raw": 16, "http-sum": 16, "http-diff-src": 16, "http-copy-src": 16, "http-sumdiff-dest": 16, "http-sumdiff-src": 16}[c.Target]
 	nontrivial := len(c.Data) >= gate
 	cls := []string{"target=" + c.Target, "origin=" + c.Origin}
 	if resp.Decoded {
@@ -79,7 +86,7 @@ func runC15(c C15Case, ev *Evid) (fs []Finding) {
 	} else {
 		cls = append(cls, "rejected")
 	}
-	ev.Count(Hash64(c.Target, string(c.Data), c.Now+c.Claim+int64(c.Status)<<40), nontrivial, cls...)
+	ev.Count(Hash64(c.Target, string(c.Data), c.Now+c.Claim+int64(c.Status)<<40+int64(len(c.Listing))<<20), nontrivial, cls...)
 	if nontrivial && ev.WantSample() && len(c.Data) < 200 {
 		ev.Sample(c)
 	}
@@ -216,7 +223,7 @@ func genValidBytesAt(t *rapid.T, target string, now int64) []byte {
 			}
 		}
 		return b
-	case "http-view", "http-sum":
+	case "http-view", "http-sum", "http-diff-src", "http-copy-src", "http-sumdiff-dest", "http-sumdiff-src":
 		l := genSmallLayout(t)
 		b := EncodeLayoutHeader(l)
 		for _, a := range l.Archives {
@@ -299,7 +306,7 @@ func mutateBytes(t *rapid.T, b []byte) ([]byte, string) {
 	}
 }
 
-var c15Targets = []string{"file", "file", "http-view", "http-view-raw", "http-sum", "header", "series", "points", "file", "series", "points", "header", "point", "value", "timestamp", "duration", "archiveinfo"}
+var c15Targets = []string{"file", "file", "http-view", "http-view-raw", "http-sum", "http-diff-src", "http-copy-src", "http-sumdiff-dest", "http-sumdiff-src", "header", "series", "points", "file", "series", "points", "header", "point", "value", "timestamp", "duration", "archiveinfo"}
 
 func genC15(t *rapid.T) C15Case {
 	c := C15Case{Target: rapid.SampledFrom(c15Targets).Draw(t, "target"), Now: 1500000000 + rapid.Int64Range(0, 100000).Draw(t, "now")}
@@ -313,6 +320,21 @@ func genC15(t *rapid.T) C15Case {
 		c.Now = rapid.Int64Range(1<<31, 1<<32-1<<26).Draw(t, "nowHigh")
 	}
 	valid := genValidBytesAt(t, c.Target, c.Now)
+	if (c.Target == "http-sum" || c.Target == "http-diff-src" || c.Target == "http-copy-src" || c.Target == "http-sumdiff-src") && rapid.IntRange(0, 3).Draw(t, "oddListing") == 0 {
+		// the name listings are untrusted text too
+		c.Listing = rapid.SampledFrom([]string{"\n", "\n\n", "\nitem1\n", "item1\n\nitem2\n", "item1\r\n\r\n", "\r\n", " \n", "/abs/path.wsp\n", "../../etc/x.wsp\n", "a/b.wsp\n\n", "a/b.wsp", "\x00\n", strings.Repeat("x", 70000) + "\n", strings.Repeat("a/b.wsp\n", 200)}).Draw(t, "listing")
+		c.Data, c.Origin = valid, "valid+odd-listing"
+		return c
+	}
+	if c.Target == "file" && rapid.IntRange(0, 11).Draw(t, "maxRetField") == 0 && len(valid) >= 8 {
+		// a valid file whose max-retention FIELD disagrees with its archive list
+		b := append([]byte(nil), valid...)
+		real := binary.BigEndian.Uint32(b[4:])
+		v := rapid.SampledFrom([]uint32{real * 2, real + 1, real + 3600, real * 10, real / 2, real - 1, 1, 0x7fffffff}).Draw(t, "maxRetValue")
+		binary.BigEndian.PutUint32(b[4:], v)
+		c.Data, c.Origin = b, "max-retention-field-damaged"
+		return c
+	}
 	if strings.HasPrefix(c.Target, "http-") && rapid.IntRange(0, 5).Draw(t, "oddStatus") == 0 {
 		// what a proxy, a restarting or a hostile peer sends: any status, with an empty, short or complete body
 		c.Status = rapid.SampledFrom([]int{201, 204, 206, 301, 304, 400, 401, 404, 408, 500, 502, 503, 504, 599}).Draw(t, "status")
@@ -512,7 +534,7 @@ func FuzzC15(f *testing.F) {
 			return
 		}
 		c := C15Case{Target: fuzzTargets[int(in[0])%len(fuzzTargets)], Data: in[1:], Now: 1500000000, Origin: "native-fuzz"}
-		resp := execHostile(hostileReq{Target: c.Target, Data: c.Data, Now: c.Now, Claim: c.Claim, Status: c.Status}, dir)
+		resp := execHostile(hostileReq{Target: c.Target, Data: c.Data, Now: c.Now, Claim: c.Claim, Status: c.Status, Listing: c.Listing}, dir)
 		var fs []Finding
 		if resp.Panic != "" {
 			fs = append(fs, Finding{Property: "C15", Key: "panic", Detail: fmt.Sprintf("target=%s %d bytes %s: panic in %s: %s", c.Target, len(c.Data), hexHead(c.Data, 48), resp.Where, resp.Panic)})
